@@ -388,6 +388,10 @@ func (w *World) oracleCrash() {
 		if m.aborted {
 			s.Violate("C02/aborted-delivered", "message %s was aborted before the stop, yet tx%d (incarnation %d) handed it downstream", m.ID, tx.N, tx.Inc)
 		}
+		// surviving means surviving with its content
+		if m.acked && tx.BodyCall && tx.BodyErr == "" && (!bytes.Equal(tx.Body, m.Body) || !bytes.Equal(tx.Header, m.HdrBytes)) {
+			s.Violate("C02/acked-content-lost/"+model+"/"+before, "message %s was accepted before the stop; tx%d (incarnation %d) hands it downstream with different content (header %d/%d bytes, body %d/%d bytes); crashes=%v", m.ID, tx.N, tx.Inc, len(tx.Header), len(m.HdrBytes), len(tx.Body), len(m.Body), w.crashOps)
+		}
 	}
 	for _, m := range w.sc.Msgs {
 		txs := w.txsOf(m)
